@@ -162,6 +162,22 @@ impl Backend {
         self.update_document(url, &content, language_id).await
     }
 
+    /// Re-lint a document from the text the client last sent for it.
+    /// Only documents that are not open are read from disk.
+    async fn refresh_document(&self, url: &Url) -> Result<()> {
+        let buffer = {
+            let doc_lock = self.doc_state.lock().await;
+            doc_lock
+                .get(url)
+                .map(|state| state.document.get_full_string())
+        };
+
+        match buffer {
+            Some(text) => self.update_document(url, &text, None).await,
+            None => self.update_document_from_file(url, None).await,
+        }
+    }
+
     async fn update_document(
         &self,
         url: &Url,
@@ -562,7 +578,7 @@ impl LanguageServer for Backend {
                     .await
                     .map_err(|err| error!("{err}"))
                     .err();
-                self.update_document_from_file(&file_url, None)
+                self.refresh_document(&file_url)
                     .await
                     .map_err(|err| error!("{err}"))
                     .err();
@@ -593,7 +609,7 @@ impl LanguageServer for Backend {
                     .await
                     .map_err(|err| error!("{err}"))
                     .err();
-                self.update_document_from_file(&file_url, None)
+                self.refresh_document(&file_url)
                     .await
                     .map_err(|err| error!("{err}"))
                     .err();
@@ -665,7 +681,7 @@ impl LanguageServer for Backend {
         };
 
         for url in urls {
-            self.update_document_from_file(&url, None)
+            self.refresh_document(&url)
                 .await
                 .map_err(|err| error!("{err}"))
                 .err();
